@@ -238,7 +238,7 @@ pub fn raw_message(id: usize, rng: &mut Rng) -> Vec<WOp> {
 }
 
 pub fn simple_action(id: usize, rng: &mut Rng) -> Action {
-    Action { as_reader: 0, read_total: 0, buf: 1, delay_ms: 0, fin: Finish::Respond(ok_resp(id, rng)) }
+    Action { as_reader: 0, read_total: 0, buf: 1, delay_ms: 0, fin: Finish::Respond(ok_resp(id, rng)), zero_read: false }
 }
 
 /// an action with a random way of finishing and a read plan over a body of `blen` bytes
@@ -246,6 +246,7 @@ pub fn rich_action(id: usize, rng: &mut Rng, blen: usize, may_overread: bool) ->
     let fin = match rng.below(8) {
         0 => Finish::Drop,
         1 => Finish::Panic,
+        2 if rng.chance(1, 4) => Finish::Writer(vec![]), // raw writer taken and dropped untouched
         2 => Finish::Writer(raw_message(id, rng)),
         _ => Finish::Respond(ok_resp(id, rng)),
     };
@@ -257,7 +258,7 @@ pub fn rich_action(id: usize, rng: &mut Rng, blen: usize, may_overread: bool) ->
         4 => (1, blen / 2),
         _ => (1, if may_overread { blen + 10 } else { blen }),
     };
-    Action { as_reader: ar, read_total: rd, buf: *rng.pick(&[1usize, 3, 7, 512, 1024, 4096, 100000]), delay_ms: 0, fin }
+    Action { as_reader: ar, read_total: rd, buf: *rng.pick(&[1usize, 3, 7, 512, 1024, 4096, 100000]), delay_ms: 0, fin, zero_read: false }
 }
 
 fn assemble(rng: &mut Rng, reqs: &[AReq], script: Vec<Action>, mode: Mode, extra_intent: &str) -> ConnCase {
@@ -329,6 +330,11 @@ pub fn gen_c02(rng: &mut Rng) -> ConnCase {
     c
 }
 
+thread_local! {
+    /// set by the caller to make the next `gen_body` use a body far above every buffer (400 kB)
+    pub static HUGE: std::cell::Cell<bool> = std::cell::Cell::new(false);
+}
+
 pub const BODY_LENS: &[usize] = &[0, 1, 2, 5, 100, 1023, 1024, 1025, 2047, 2048, 2049, 8191, 8192, 8193, 20000];
 
 /// C03 / C09: bodies, read plans, following requests
@@ -349,6 +355,7 @@ pub fn gen_body(rng: &mut Rng, consume_focus: bool, big: bool) -> ConnCase {
         _ => Framing::None,
     };
     let n = if big && rng.chance(1, 4) { 70000 } else { *rng.pick(BODY_LENS) };
+    let n = if HUGE.with(|h| h.replace(false)) { 400_000 } else { n };
     let n = if framing == Framing::None { 0 } else { n };
     set_body(rng, &mut r, framing, n);
     reqs.push(r);
@@ -367,6 +374,10 @@ pub fn gen_body(rng: &mut Rng, consume_focus: bool, big: bool) -> ConnCase {
         };
         a.as_reader = ar;
         a.read_total = rd;
+    }
+    if a.as_reader > 0 && rng.chance(1, 8) {
+        // a read with an empty buffer first: the EOF fuse takes it for the end of a streamed body
+        a.zero_read = true;
     }
     script.push(a);
     let n_after = rng.range(1, 2);
@@ -401,7 +412,7 @@ pub fn gen_upgrade(rng: &mut Rng) -> ConnCase {
     } else {
         Finish::Respond(ok_resp(0, rng))
     };
-    let a = Action { as_reader: 1, read_total: *rng.pick(&[0usize, n / 2, n, n + 5]), buf: *rng.pick(&[1usize, 64, 4096]), delay_ms: 0, fin };
+    let a = Action { as_reader: 1, read_total: *rng.pick(&[0usize, n / 2, n, n + 5]), buf: *rng.pick(&[1usize, 64, 4096]), delay_ms: 0, fin, zero_read: false };
     assemble(rng, &[r], vec![a], Mode::HalfClose, "")
 }
 
@@ -452,6 +463,11 @@ pub fn smuggle_variants() -> Vec<Vec<u8>> {
     ];
     for h in hdr_lines {
         v.push(format!("POST /s HTTP/1.1\r\nHost: x\r\n{}\r\n\r\n", h).into_bytes());
+    }
+    // a line of nothing but whitespace (an empty obsolete fold) inside the head
+    for ws in [" ", "\t", "  \t "] {
+        v.push(format!("POST /s HTTP/1.1\r\nHost: x\r\n{}\r\nContent-Length: 0\r\n\r\n", ws).into_bytes());
+        v.push(format!("POST /s HTTP/1.1\r\n{}\r\nContent-Length: 38\r\n\r\n", ws).into_bytes());
     }
     for val in ["", "+5", "-5", "5x", "abc", "5, 5", "5 5", "18446744073709551616", "99999999999999999999999", "0x10", "5.0", "+0"] {
         v.push(format!("POST /s HTTP/1.1\r\nHost: x\r\nContent-Length: {}\r\n\r\n", val).into_bytes());
@@ -606,7 +622,7 @@ pub fn gen_c18(rng: &mut Rng) -> ConnCase {
         3 => (1, n / 2),
         _ => (2, n + 1),
     };
-    let a = Action { as_reader: ar, read_total: rd, buf: *rng.pick(&[1usize, 100, 4096]), delay_ms: 0, fin: Finish::Respond(ok_resp(0, rng)) };
+    let a = Action { as_reader: ar, read_total: rd, buf: *rng.pick(&[1usize, 100, 4096]), delay_ms: 0, fin: Finish::Respond(ok_resp(0, rng)), zero_read: false };
     let mut reqs = vec![r];
     let mut script = vec![a];
     if rng.chance(1, 2) {
@@ -645,5 +661,98 @@ pub fn gen_mixed(rng: &mut Rng) -> ConnCase {
         reqs.push(r);
         script.push(rich_action(i, rng, blen, true));
     }
+    assemble(rng, &reqs, script, Mode::HalfClose, "")
+}
+
+/// C06 / C18: the client sends the head and only part of a streamed body, then waits for the
+/// server's answer before sending the rest; the handler drops / answers without needing the rest.
+pub fn gen_hold(rng: &mut Rng) -> ConnCase {
+    let mut r = AReq::get("/held");
+    r.method = "POST".into();
+    let expect = rng.chance(1, 3);
+    if expect {
+        r.hdrs.push(("Expect".into(), "100-continue".into()));
+        r.expect100 = true;
+    }
+    let n = *rng.pick(&[1025usize, 4000, 9000]);
+    let framing = if rng.chance(1, 4) { Framing::Chunked } else { Framing::Len };
+    set_body(rng, &mut r, framing, n);
+    // (not `into_writer`: it consumes the request, whose body reader discards the unread body
+    //  *before* the raw writer is handed out — it cannot answer before the body arrived)
+    let fin = match rng.below(3) {
+        0 => Finish::Drop,
+        1 => Finish::Panic,
+        _ => Finish::Respond(ok_resp(0, rng)),
+    };
+    // the handler never asks for more than what the first phase delivered
+    let sent_body = if expect { 0 } else { *rng.pick(&[0usize, 1, 100]) };
+    let (ar, rd) = if expect || sent_body == 0 { (0, 0) } else { (1, rng.range(0, sent_body)) };
+    let a = Action { as_reader: ar, read_total: rd, buf: 64, delay_ms: 0, fin, zero_read: false };
+    let mut reqs = vec![r];
+    let mut script = vec![a];
+    if rng.chance(1, 2) {
+        reqs.push(AReq::get("/next"));
+        script.push(simple_action(1, rng));
+    }
+    let mut c = assemble(rng, &reqs, script, Mode::HalfClose, "i_holdneed=1");
+    let head_end = c.bytes.windows(4).position(|w| w == b"\r\n\r\n").map(|p| p + 4).unwrap_or(0);
+    // for a chunked body the first `sent_body` payload bytes sit behind a size line: keep it simple, hold at the head
+    let extra = if reqs[0].framing == Framing::Len { sent_body } else { 0 };
+    if reqs[0].framing != Framing::Len {
+        c.script[0].as_reader = 0;
+        c.script[0].read_total = 0;
+    }
+    c.hold = Some(head_end + extra);
+    c
+}
+
+/// C10: an unsupported Expect value with a small body that the client withholds until it gets the verdict
+pub fn gen_bad_expect_hold(rng: &mut Rng, pos: usize) -> ConnCase {
+    let mut reqs = vec![];
+    let mut script = vec![];
+    for i in 0..pos {
+        reqs.push(AReq::get(&format!("/good{}", i)));
+        script.push(simple_action(i, rng));
+    }
+    let n = *rng.pick(&[1usize, 3, 1024]);
+    let head = format!("POST /e HTTP/1.1\r\nHost: x\r\n{}: {}\r\nContent-Length: {}\r\n\r\n", crate::recase(rng, "Expect"), *rng.pick(&["200-ok", "bogus", "100-continue2"]), n);
+    let mut raw = head.clone().into_bytes();
+    raw.extend(std::iter::repeat(b'b').take(n));
+    reqs.push(AReq::bad("e417", raw));
+    script.push(simple_action(pos, rng));
+    let mut c = assemble(rng, &reqs, script, Mode::HalfClose, "i_holdneed=1");
+    c.hold = Some(c.bytes.len() - n);
+    c
+}
+
+/// C06: `respond` with a body reader that fails midway, as the last request of a pipeline
+pub fn gen_respfail(rng: &mut Rng) -> ConnCase {
+    let k = rng.range(0, 2);
+    let mut reqs = vec![];
+    let mut script = vec![];
+    for i in 0..k {
+        reqs.push(AReq::get(&format!("/ok{}", i)));
+        script.push(simple_action(i, rng));
+    }
+    let mut r = AReq::get("/fails");
+    r.ver = if rng.chance(1, 3) { (1, 0) } else { (1, 1) };
+    if r.ver == (1, 0) {
+        r.hdrs.push(("Connection".into(), "keep-alive".into()));
+    }
+    if rng.chance(1, 5) {
+        r.method = "HEAD".into();
+    }
+    reqs.push(r);
+    let total = *rng.pick(&[20usize, 2000, 9000, 20000]);
+    let body: Vec<u8> = (0..total).map(|i| b'a' + (i % 26) as u8).collect();
+    let fail_after = *rng.pick(&[0usize, 10, total / 2, total - 1, total, total + 5]);
+    let rs = RespSpec {
+        status: *rng.pick(&[200u16, 404, 204]),
+        hdrs: vec![],
+        declared: if rng.chance(1, 3) { None } else { Some(total) },
+        thr: if rng.chance(1, 3) { Some(0) } else { None },
+        pieces: body.chunks(*rng.pick(&[7usize, 1000, 8192])).map(|c| c.to_vec()).collect(),
+    };
+    script.push(Action { as_reader: 0, read_total: 0, buf: 1, delay_ms: 0, fin: Finish::RespondFail(rs, fail_after), zero_read: false });
     assemble(rng, &reqs, script, Mode::HalfClose, "")
 }
